@@ -210,6 +210,8 @@ pub fn project(s: &PushState) -> Value {
             "new_name_p": f2j(c.new_erc_name_probability),
             "max_rand_points": c.max_points_in_random_expressions,
             "max_prog_points": c.max_points_in_program,
+            // the capacities in force (a host may install queues of another capacity)
+            "in_cap": s.input_stack.capacity(), "out_cap": s.output_stack.capacity(), "graph_cap": s.graph_stack.capacity(),
         }
     })
 }
@@ -227,6 +229,15 @@ pub fn build(v: &Value) -> PushState {
     s.int_vector_stack = vec2stack(&v["ivec"], j2ivec);
     s.float_vector_stack = vec2stack(&v["fvec"], j2fvec);
     s.index_stack = vec2stack(&v["index"], j2index);
+    // capacities other than the defaults (optional fields of cfg): the host replaces the public queue fields
+    if let Some(cf) = v.get("cfg") {
+        let cap = |k: &str, d: usize| cf.get(k).and_then(|x| x.as_u64()).map(|x| x as usize).filter(|x| *x >= 1).unwrap_or(d);
+        use pushr::push::buffer::{BufferType, PushBuffer};
+        let (ic, oc, gc) = (cap("in_cap", s.input_stack.capacity()), cap("out_cap", s.output_stack.capacity()), cap("graph_cap", s.graph_stack.capacity()));
+        if ic != s.input_stack.capacity() { s.input_stack = PushBuffer::new(BufferType::Queue, ic); }
+        if oc != s.output_stack.capacity() { s.output_stack = PushBuffer::new(BufferType::Queue, oc); }
+        if gc != s.graph_stack.capacity() { s.graph_stack = PushBuffer::new(BufferType::Stack, gc); }
+    }
     // optional "rot": the ring cursors are advanced by that many push/pop cycles first, so that the
     // live items sit at a rotated (possibly wrapping) position of the ring; invisible in the abstract state
     let rot = |name: &str| v.get("rot").and_then(|r| r.get(name)).and_then(|k| k.as_u64()).unwrap_or(0);
